@@ -300,6 +300,7 @@ func runC11(p *P, r *R) {
 	// a close from any starting state closes the notify channel (shared with C10 R10.3)
 	borrow(p, r, "C10", runC10, map[string]string{"R10.3": "R11.3"}, func(o Ob) bool { return constructHas(o, "closes the notify channel") })
 	c11NoBlockingUnderLock(p, r)
+	c11LockOrder(p, r)
 	// a read blocked for more data is woken by every arrival (shared with C20 R20.1)
 	arrivalWakesReaders(p, r, "R11.10")
 	// the writer parked after EAGAIN is released by every EPOLLOUT edge (shared with C18 R18.7)
@@ -856,4 +857,184 @@ func c11NoBlockingUnderLock(p *P, r *R) {
 			r.note("R11.11 exception entry %q no longer matches anything (stale, harmless)", k)
 		}
 	}
+}
+
+// c11LockOrder (R11.12): the package's mutexes are not re-entrant. While a mutex may be held, nothing reachable
+// through the calls made (static callees and, through the VTA call graph, interface methods such as the listener's
+// per-session shutdown callback) may acquire the same mutex again, and the "acquired while held" relation between
+// different mutexes must be free of cycles. Mutexes are identified by the field they live in (not by instance): a
+// report means "some instance may", which for the session set / listener / manager singletons is exact.
+func c11LockOrder(p *P, r *R) {
+	lockOf := func(in ssa.Instruction) string {
+		cc := callCommon(in)
+		if cc == nil || len(cc.Args) == 0 {
+			return ""
+		}
+		switch p.calleeName(cc) {
+		case "(*sync.Mutex).Lock", "(*sync.RWMutex).Lock", "(*sync.RWMutex).RLock":
+			return wordOf(cc.Args[0])
+		}
+		return ""
+	}
+	words := map[string]bool{}
+	for _, f := range p.fnList {
+		allInstrs(f, func(in ssa.Instruction) {
+			if w := lockOf(in); w != "" {
+				words[w] = true
+			}
+		})
+	}
+	cg := p.callGraph()
+	calleesOf := func(f *ssa.Function, in ssa.Instruction) []*ssa.Function {
+		if _, isGo := in.(*ssa.Go); isGo {
+			return nil
+		}
+		if g := p.localCallee(in); g != nil {
+			return []*ssa.Function{g}
+		}
+		cc := callCommon(in)
+		if cc == nil || !cc.IsInvoke() {
+			return nil
+		}
+		var out []*ssa.Function
+		if nd := cg.Nodes[f]; nd != nil {
+			for _, e := range nd.Out {
+				if e.Site == in && e.Callee.Func.Pkg == p.Pkg && e.Callee.Func.Blocks != nil {
+					out = append(out, e.Callee.Func)
+				}
+			}
+		}
+		return out
+	}
+	// transitive set of mutexes a function may acquire, with one witness chain each
+	type acq map[string]string
+	memo := map[*ssa.Function]acq{}
+	var summarize func(f *ssa.Function, depth int) acq
+	summarize = func(f *ssa.Function, depth int) acq {
+		if a, ok := memo[f]; ok {
+			return a
+		}
+		a := acq{}
+		memo[f] = a
+		if depth <= 0 {
+			return a
+		}
+		allInstrs(f, func(in ssa.Instruction) {
+			if w := lockOf(in); w != "" {
+				if _, isDefer := in.(*ssa.Defer); !isDefer {
+					if _, ok := a[w]; !ok {
+						a[w] = p.fname(f)
+					}
+				}
+				return
+			}
+			for _, g := range calleesOf(f, in) {
+				for w, chain := range summarize(g, depth-1) {
+					if _, ok := a[w]; !ok {
+						a[w] = p.fname(f) + " -> " + chain
+					}
+				}
+			}
+		})
+		return a
+	}
+	var ws []string
+	for w := range words {
+		ws = append(ws, w)
+	}
+	sort.Strings(ws)
+	edges := map[string]map[string]string{} // held -> acquired -> witness
+	nSites := 0
+	for _, w := range ws {
+		rg := p.mutexRegion(w)
+		for _, f := range p.fnList {
+			if len(findInstrs(f, M{ID: "acq", F: rg.Acquire})) == 0 {
+				continue
+			}
+			mh := p.mayHeldBefore(f, rg)
+			allInstrs(f, func(in ssa.Instruction) {
+				if !mh[in] {
+					return
+				}
+				if _, isDefer := in.(*ssa.Defer); isDefer {
+					return
+				}
+				got := acq{}
+				if w2 := lockOf(in); w2 != "" {
+					got[w2] = p.fname(f)
+				}
+				for _, g := range calleesOf(f, in) {
+					for w2, chain := range summarize(g, 6) {
+						if _, ok := got[w2]; !ok {
+							got[w2] = chain
+						}
+					}
+				}
+				if len(got) == 0 {
+					return
+				}
+				nSites++
+				for w2, chain := range got {
+					if w2 == w {
+						r.fail("R11.12", p.fname(f)+": "+w+" is not acquired again (directly or in a callee) while it may be held", p.ipos(in),
+							"self-deadlock: the mutex is not re-entrant; acquired again via %s", chain)
+						continue
+					}
+					if edges[w] == nil {
+						edges[w] = map[string]string{}
+					}
+					if _, ok := edges[w][w2]; !ok {
+						edges[w][w2] = p.fname(f) + " at " + p.ipos(in) + " via " + chain
+					}
+				}
+			})
+		}
+	}
+	r.count("R11.12", "calls made while a mutex may be held that acquire further mutexes", nSites, 5)
+	// cycles in the acquired-while-held relation
+	var order []string
+	for a := range edges {
+		order = append(order, a)
+	}
+	sort.Strings(order)
+	state := map[string]int{}
+	var stack []string
+	cyc := ""
+	var dfs func(a string)
+	dfs = func(a string) {
+		state[a] = 1
+		stack = append(stack, a)
+		var bs []string
+		for b := range edges[a] {
+			bs = append(bs, b)
+		}
+		sort.Strings(bs)
+		for _, b := range bs {
+			if cyc != "" {
+				break
+			}
+			switch state[b] {
+			case 0:
+				dfs(b)
+			case 1:
+				for i, x := range stack {
+					if x == b {
+						cyc = strings.Join(append(append([]string{}, stack[i:]...), b), " -> ")
+					}
+				}
+			}
+		}
+		stack = stack[:len(stack)-1]
+		state[a] = 2
+	}
+	for _, a := range order {
+		if state[a] == 0 && cyc == "" {
+			dfs(a)
+		}
+	}
+	nEdges := 0
+	for _, m := range edges {
+		nEdges += len(m)
+	}
+	r.ob("R11.12", "the acquired-while-held relation between the package's mutexes has no cycle", "", cyc == "", true, "%d ordered pairs; cycle: %s", nEdges, cyc)
 }
